@@ -523,17 +523,43 @@ ENOUGH = []
 KNOWN_ABORT = re.compile(r"Fatal failure in matching insn")
 
 
+def same_level_disagreement(engines, line):
+    """engines running the SAME generator pipeline at the same level (genN, lazyN, bbN) returned different values"""
+    if " | " not in line or " | =" in line:
+        return False
+    r = [x.rstrip("*") for x in line.split(" | ")[1].split()]
+    if len(r) != len(engines):
+        return False
+    by_level = {}
+    for e, v in zip(engines, r):
+        if e[:3] == "gen" or e[:4] == "lazy" or (e[:2] == "bb" and len(e) == 3):
+            if not v.startswith("!"):   # crashes / timeouts are not compared
+                by_level.setdefault(e[-1], set()).add(v)
+    return any(len(v) > 1 for v in by_level.values())
+
+
 def classify_prog_failure(f):
-    """'c01' when the failure reproduces with eager generation alone against the interpreter"""
+    """'c01' when the failing evaluations also fail with eager generation alone against the interpreter, unless
+    engines of the same optimisation level disagree among themselves (then the interface is observable: ours)"""
     txt = " ".join(f["lines"]) + f["err"]
     if KNOWN_ABORT.search(txt):
         return "c01"
     if any(l.startswith("ORDER-DEPENDENT") for l in f["lines"]):
         return "c03"
-    rc, lines, err = run_iface(GEN_ONLY, f["prog"].text(), f["plan"], f"classify_{f['prog'].name}", {"C03_TRASH": "none"}, timeout=12)
+    lvl = [l for l in f["lines"] if same_level_disagreement(f["engines"], l)]
+    # only the failing evaluations are re-run (a hanging call costs its 10 s alarm), in plan order
+    keys = [l.split(" | ")[0] for l in f["lines"] if " | " in l and l[:2] in ("P ", "H ", "W ", "B ")][:6]
+    cmd = {"P": "prog", "H": "callh", "W": "wide", "B": "callb"}
+    want = {" ".join([cmd[k[0]]] + k.split()[1:]) for k in keys}
+    sub = [l for l in f["plan"].split("\n") if l.strip() in want]
+    plan = ("\n".join(sub) + "\n") if (sub and f["rc"] == 0) else f["plan"]
+    rc, lines, err = run_iface(GEN_ONLY, f["prog"].text(), plan, f"classify_{f['prog'].name}", {"C03_TRASH": "none"}, timeout=75)
     bl = bad_lines(lines)
     if rc != 0:
         f["gen_only"] = (bl + [f"rc={rc} {err.strip()[-100:]}"])[:2]
+        if lvl:
+            f["lines"] = lvl + ["(eager generation alone also fails on this program: rc=%d)" % rc]
+            return "c03"
         return "c01"    # eager generation alone aborts / hangs
     if not bl:
         return "c03"
@@ -544,6 +570,9 @@ def classify_prog_failure(f):
     mine = [l for l in f["lines"] if l.startswith("A ") or (" | " in l and l.split(" | ")[0] not in gen_bad)]
     if mine:
         f["lines"] = mine
+        return "c03"
+    if lvl:
+        f["lines"] = lvl + ["(the evaluation also differs between interp and eager generation: " + bl[0][:160] + ")"]
         return "c03"
     return "c01"
 
